@@ -42,6 +42,17 @@ CHECKS = {
    note=NOTE_COMMON+" 3-D grids are concrete (10 pairs); the 1-D routine is fully symbolic up to 4x3 cells (thorough 4x4). discretize's volume_average is probed with unit vectors to obtain the adjoint matrix.",
    technique="symbolic execution with forking comparisons over symbolic node coordinates (every interleaving = one path) + LIN/UF validity queries; concrete-grid symbolic-value identities",
    ref="DESIGN.md §6 C15"),
+ 'C09': dict(
+   text="fields._point_vector is executed with symbolic position (anywhere in the second to second-last cell), symbolic azimuth/"
+        "elevation (cos/sin pair with c^2+s^2=1) and a symbolic field on four concrete stretched grids; its cell search forks on "
+        "comparisons so every cell class per component is a path; per path z3 decides <point_vector, f> == sum_c rot_c * "
+        "trilinear_c(f)(pos) for all positions/orientations/fields (the transpose of linear sampling), component sums = unit "
+        "direction, support <= one cell's edges. Magnetic: H sampled (trilinear on faces of get_magnetic_field(E), real "
+        "_edge_curl_factor kernel on symbolic E) == <E, magnetic point vector> as linear forms, frequency and Laplace domain. "
+        "get_receiver's NaN mask explored with a symbolic position: NaN iff outside [nodes[1], nodes[-2]]^3.",
+   note=NOTE_COMMON+" 'Linear sampling' is the checker's trilinear interpolant, validated against the real get_receiver(method='linear') at solver witnesses. Magnetic position/orientation concrete (discretize is compiled), mu_r=1. Reciprocity is a corollary (C02 symmetry + transposes + exact solve), not checked.",
+   technique="symbolic execution with forking cell search (path = cell class) + SMT validity of polynomial identities in position/angles/field; linear-form comparison for the magnetic transpose",
+   ref="DESIGN.md §6 C09"),
  'C05': dict(
    text="Bounded symbolic execution with the grid shape as z3 integers: MGParameters._max_level, _current_sc_dir, _current_lr_dir, "
         "smoothing dispatch, multigrid recursion and _terminate run with numerics stubbed; the explorer forks on the code's "
